@@ -477,7 +477,11 @@ class CallMixin:
         return self.quant(node, st, z3.Exists)
 
     def spec_implies(self, node, st):
-        a, b = [self.truth(self.pure(x, st), st) for x in node.args]
+        a = self.truth(self.pure(node.args[0], st), st)
+        if z3.is_false(z3.simplify(a)):
+            # vacuous on this path; the consequent need not even be typable (``implies(r is not None, len(r) >= 1)`` for r = None)
+            return VBool(z3.BoolVal(True))
+        b = self.truth(self.pure(node.args[1], st), st)
         return VBool(z3.Implies(a, b))
 
     def spec_iff(self, node, st):
@@ -967,6 +971,18 @@ class CallMixin:
                 return k(st, self.uf('str_' + name, [recv] + list(args), T_BOOL))
             if name in ('partition', 'rpartition') and len(args) == 1:
                 return k(st, VTup([self.uf('str_%s_%d' % (name, n), [recv, args[0]], T_STR) for n in range(3)]))
+            if name == 'join' and len(args) == 1 and isinstance(args[0], (VNone, VOpt)):
+                # str.join(None): TypeError ("can only join an iterable")
+                if isinstance(args[0], VNone):
+                    return self.raise_(st, 'TypeError')
+                return self.guard(st, z3.Not(args[0].isnone), 'TypeError', 'join', node,
+                                  lambda s: k(s, fresh_val(T_STR, 'str_join', s)))
+            if name == 'split' and len(args) == 1 and not kws and isinstance(args[0], VObj) and args[0].sort == 'Str':
+                # str.split(sep): a list of strings with at least one element (the whole string when sep does not occur)
+                L = st.alloc(fresh_hlist(T_STR, 'split', st))
+                st.assume(st.heap[L.rid].n >= 1)
+                self.note('rule', (node.lineno, ast.unparse(node)[:70], 'str.split(sep): a non-empty list of strings'))
+                return k(st, L)
             if name in STR_STR_METHODS:
                 flat = [a for a in args if not isinstance(a, VRef)]
                 if len(flat) != len(args):
